@@ -862,25 +862,28 @@ func dropOptional(exp []Ev, opt []bool, got []Ev) ([]Ev, []Ev) {
 // while the shadow, drained after every op, never merges). The delivered
 // sequence is padded to n so that the exact comparison can follow.
 func normalizeBurst(exp, got []Ev) []Ev {
+	// The kernel's merge test compares watch, mask and name but not the rename
+	// cookie, so two adjacent IN_MOVED_TO of one name (two different moves onto
+	// it) merge as well, keeping the first one's cookie: runs are therefore
+	// identified by (Op, Name) only, and a merged run keeps its leading events.
 	out := make([]Ev, 0, len(exp))
 	i, j := 0, 0
 	for i < len(exp) && j < len(got) {
-		if exp[i] != got[j] {
+		if !exp[i].same(got[j]) {
 			break
 		}
 		n, m := 1, 1
-		for i+n < len(exp) && exp[i+n] == exp[i] {
+		for i+n < len(exp) && exp[i+n].same(exp[i]) {
 			n++
 		}
-		for j+m < len(got) && got[j+m] == got[j] {
+		for j+m < len(got) && got[j+m].same(got[j]) {
 			m++
 		}
 		if m > n {
 			break
 		}
-		for k := 0; k < n; k++ {
-			out = append(out, exp[i])
-		}
+		out = append(out, got[j:j+m]...)
+		out = append(out, exp[i+m:i+n]...)
 		i += n
 		j += m
 	}
